@@ -2186,7 +2186,9 @@ def _config_str(
   with _parse_scope(import_manager=import_manager):
     macros = {}
     for (scope, selector), config in configuration_object.items():
-      if _REGISTRY[selector].wrapped == macro:  # pylint: disable=comparison-with-callable
+      if (_REGISTRY[selector].wrapped == macro and  # pylint: disable=comparison-with-callable
+          _is_literally_representable(config['value'])):
+        # As for parameters: never emit something that doesn't parse back.
         macros[scope, selector] = config
     if macros:
       formatted_statements.append('# Macros:')
